@@ -1051,3 +1051,164 @@ def m_collect(I, a, t, c):
     if 'String' in full:
         return StrV(items)
     return Agg('array', 0, items)
+
+
+# ---- Vec<T> (modelled as an 'array' aggregate living in its cell)
+@model('std::vec::Vec::new', 'std::vec::Vec::with_capacity')
+def m_vec_new(I, a, t, c):
+    return Agg('array', 0, [])
+
+
+@model('std::vec::from_elem')
+def m_from_elem(I, a, t, c):
+    n = a[1]
+    if isinstance(n, BV) and n.val is not None:
+        return Agg('array', 0, [a[0]] * n.val)
+    raise Unsupported('vec![x; n] with symbolic n')
+
+
+@model('std::vec::Vec::push')
+def m_vec_push(I, a, t, c):
+    v = I.load(a[0])
+    I.store(a[0], Agg('array', 0, v.fields + [a[1]]))
+    return UNIT
+
+
+@model('std::vec::Vec::len')
+def m_vec_len(I, a, t, c):
+    return BV(64, len(deref_all(I, a[0]).fields))
+
+
+@model('std::vec::Vec::is_empty')
+def m_vec_is_empty(I, a, t, c):
+    return bv_bool(len(deref_all(I, a[0]).fields) == 0)
+
+
+@model('<std::vec::Vec<T, A> as std::ops::Deref>::deref', '<std::vec::Vec<T, A> as std::ops::DerefMut>::deref_mut')
+def m_vec_deref(I, a, t, c):
+    r = a[0]
+    v = I.load(r)
+    return RefV(r.cell, r.path, (0, len(v.fields)))
+
+
+@model('<std::vec::Vec<T, A> as std::ops::Index<I>>::index', '<std::vec::Vec<T, A> as std::ops::IndexMut<I>>::index_mut')
+def m_vec_index(I, a, t, c):
+    r = a[0]
+    v = I.load(r)
+    i = I.conc(a[1], 'Vec index')
+    if i >= len(v.fields):
+        raise Panic('BoundsCheck', 'Vec index %d of %d' % (i, len(v.fields)), t.span)
+    return RefV(r.cell, r.path + (i,))
+
+
+@model('std::vec::Vec::resize')
+def m_vec_resize(I, a, t, c):
+    v = I.load(a[0])
+    n = I.conc(a[1])
+    f = list(v.fields)[:n] + [a[2]] * max(0, n - len(v.fields))
+    I.store(a[0], Agg('array', 0, f))
+    return UNIT
+
+
+@model('std::vec::Vec::extend_from_slice')
+def m_vec_extend_from_slice(I, a, t, c):
+    v = I.load(a[0])
+    s = I.load(a[1]) if isinstance(a[1], RefV) else a[1]
+    I.store(a[0], Agg('array', 0, v.fields + list(s.fields)))
+    return UNIT
+
+
+@model('<std::vec::Vec<T, A> as std::iter::Extend<T>>::extend')
+def m_vec_extend(I, a, t, c):
+    v = I.load(a[0])
+    items = a[1].fields if isinstance(a[1], Agg) and a[1].kind == 'array' else _iter_items(I, a[1])
+    I.store(a[0], Agg('array', 0, v.fields + list(items)))
+    return UNIT
+
+
+# ---- HashMap<K, V> : MapV, a python dict key -> Cell
+class MapV:
+    __slots__ = ('d',)
+
+    def __init__(self):
+        self.d = {}
+
+    def __repr__(self):
+        return 'Map{%s}' % ', '.join('%r: %r' % (k, c.v) for k, c in self.d.items())
+
+
+def _mkey(v):
+    if isinstance(v, BV):
+        return ('bv',) + v.key()
+    if isinstance(v, Opaque):
+        return ('op', v.tag)
+    raise Unsupported('map key %r' % (v,))
+
+
+@model('hashbrown::HashMap::new', 'std::collections::HashMap::new',
+       '<hashbrown::HashMap<K, V, S, A> as std::default::Default>::default')
+def m_map_new(I, a, t, c):
+    return MapV()
+
+
+@model('hashbrown::HashMap::entry', 'hashbrown::HashMap::<K, V, S, A>::entry')
+def m_map_entry(I, a, t, c):
+    return Agg('entry', 0, [a[0], a[1]])
+
+
+def _entry(I, e):
+    m = I.load(e.fields[0])
+    if not isinstance(m, MapV):
+        raise Unsupported('entry on %r' % (m,))
+    return m, _mkey(e.fields[1]), e.fields[1]
+
+
+@model('hashbrown::hash_map::Entry::and_modify')
+def m_entry_and_modify(I, a, t, c):
+    m, k, _ = _entry(I, a[0])
+    if k in m.d:
+        I.call_closure(a[1], [RefV(m.d[k][1])])
+    return a[0]
+
+
+@model('hashbrown::hash_map::Entry::or_insert')
+def m_entry_or_insert(I, a, t, c):
+    m, k, kv = _entry(I, a[0])
+    if k not in m.d:
+        m.d[k] = (kv, Cell(a[1], 'mapval'))
+    return RefV(m.d[k][1])
+
+
+@model('hashbrown::hash_map::Entry::or_insert_with')
+def m_entry_or_insert_with(I, a, t, c):
+    m, k, kv = _entry(I, a[0])
+    if k not in m.d:
+        m.d[k] = (kv, Cell(I.call_closure(a[1], []), 'mapval'))
+    return RefV(m.d[k][1])
+
+
+@model('hashbrown::HashMap::len')
+def m_map_len(I, a, t, c):
+    return BV(64, len(deref_all(I, a[0]).d))
+
+
+@model('hashbrown::HashMap::insert')
+def m_map_insert(I, a, t, c):
+    m = I.load(a[0])
+    k = _mkey(a[1])
+    old = m.d.get(k)
+    m.d[k] = (a[1], Cell(a[2], 'mapval'))
+    return some(old[1].v) if old else NONE
+
+
+@model('<&mut hashbrown::HashMap<K, V, S, A> as std::iter::IntoIterator>::into_iter',
+       '<&hashbrown::HashMap<K, V, S, A> as std::iter::IntoIterator>::into_iter')
+def m_map_iter(I, a, t, c):
+    m = I.load(a[0])
+    return Agg('iter', 0, [[Agg('tuple', 0, [RefV(Cell(kv, 'mapkey')), RefV(cell)]) for kv, cell in m.d.values()], 0])
+
+
+@model('prim::BorrowMut::borrow_mut', 'prim::Borrow::borrow', '<u64 as std::borrow::BorrowMut<u64>>::borrow_mut', '<T as std::borrow::BorrowMut<T>>::borrow_mut',
+       '<T as std::borrow::Borrow<T>>::borrow')
+def m_borrow_mut(I, a, t, c):
+    return a[0]
